@@ -13,7 +13,7 @@ def gen(rng, cfg, k):
     return lines
 
 def run(ctx):
-    ok = ctx.lean(['AmcVerif.Props.C11', 'AmcVerif.Props.C11b', 'AmcVerif.Props.C11c'], extra_modules=['AmcVerif.Bridge.SmallSetBridge', 'AmcVerif.Bridge.FlatSetBridge'])
+    ok = ctx.lean(['AmcVerif.Props.C11', 'AmcVerif.Props.C11b', 'AmcVerif.Props.C11c', 'AmcVerif.Props.C11d'], extra_modules=['AmcVerif.Bridge.SmallSetBridge', 'AmcVerif.Bridge.FlatSetBridge'])
     n = 80 if ctx.tier == 'quick' else 500
     if not ok:
         n *= 3
